@@ -341,6 +341,22 @@ class Pair:
             self.sub_handlers.clear()
             self.regs.clear()
 
+    # -- key ring changes while the sessions are joined ---------------------------------------------------
+    def session_of(self, who):
+        return self.a if who == "A" else self.b
+
+    def set_key(self, who, view, prefix, keyid):
+        """KeyRing.set_key() on the LIVE key ring object the session ``who`` uses as payload codec (what an application
+        does that holds on to its key ring, or fetches it with session.get_payload_codec()): ``keyid`` None removes the
+        key of ``prefix``; ``prefix`` "" is the default key."""
+        kr = self.session_of(who).get_payload_codec()
+        assert kr is not None, "no key ring on session %s" % who
+        kr.set_key(prefix, wamp_key(keyid, view) if keyid is not None else None)
+
+    def set_codec(self, who, side):
+        """session.set_payload_codec() with a NEW key ring built from ``side`` (None: payload codec removed)."""
+        self.session_of(who).set_payload_codec(make_keyring(side))
+
     # -- caller-side exception classes ---------------------------------------------------------------
     def define_errors(self, any_uris=(), fixed_uris=()):
         """session.define() exception classes at the CALLER (A) for error URIs: ``any_uris`` -> a class constructible
